@@ -282,7 +282,11 @@ def _check_count_sweep(tier, book):
     for ctype, cls, ns in (("IFORM", virocon.IFORMContour, range(3, hi)), ("ISORM", virocon.ISORMContour, range(3, hi, 7))):
         bad = []
         for n in ns:
-            con = cls(model, 0.02, n_points=n)
+            try:
+                con = cls(model, 0.02, n_points=n)
+            except Exception as e:  # every n_points >= 3 of the range has to give a contour
+                bad.append((n, f"raised {type(e).__name__}: {e}"))
+                continue
             X, U = np.asarray(con.coordinates), np.asarray(con.sphere_points)
             ok = X.shape == (n, 2) and U.shape == (n, 2)
             if ok:
